@@ -41,6 +41,14 @@ inductive Val where
   | ty (isMethod : Bool)
   /-- the argument tuple built for the user's handler: the selected components of (object, name, old, new) -/
   | tuple (sels : List Sel) (old new : Id)
+  /-- `handler.__func__` -/
+  | funcOf
+  /-- `type(self)._notify_method_listener` (true) / `_notify_function_listener` (false) -/
+  | listenerRef (method : Bool)
+  /-- `self.argument_transforms[n]` -/
+  | xformV (n : Int)
+  /-- the notifier list `owner` / the `target` object / a bound method of the wrapper passed as a callback -/
+  | ownerList | target | callback
   deriving DecidableEq, Repr
 
 inductive Glob where
@@ -49,6 +57,7 @@ inductive Glob where
 
 inductive Attr where
   | type | comparison_mode | old | new | object | name | handler | notify_listener | dunder_self | dunder_name
+  | dunder_func | owner | argument_transform | listener_deleted
   | other (s : String)
   deriving DecidableEq, Repr
 
@@ -73,6 +82,8 @@ inductive Fn where
   | type_of                  -- `type(x)`
   | owner_deref              -- `self.object()`: the listener object of a method wrapper (None when dead)
   | owner_remove             -- `self.owner.remove(self)`: the wrapper takes itself out of the notifier list
+  | argcount                 -- `f.__code__.co_argcount`
+  | weakref_new              -- `weakref.ref(obj, callback)`
   deriving DecidableEq, Repr
 
 inductive Expr where
@@ -87,6 +98,11 @@ inductive Expr where
   | isE (a b : Expr) | isNot (a b : Expr) | eq (a b : Expr) | ne (a b : Expr)
   | and (a b : Expr) | not (a : Expr)
   | call (f : Fn) (args : List Expr)
+  | sub (a b : Expr) | gt (a b : Expr)
+  /-- `type(self)._notify_method_listener` / `._notify_function_listener` -/
+  | listenerRef (method : Bool)
+  /-- `self.argument_transforms[e]` -/
+  | xformAt (e : Expr)
   deriving Repr
 
 inductive Stmt where
@@ -99,7 +115,9 @@ inductive Stmt where
   /-- `try: b  except Exception [as v]: h  else: o` -/
   | tryS (b : Stmt) (v : Option Nat) (h o : Stmt)
   /-- `self.a = self.b = … = e` (`n` wrapper attributes; the model keeps no wrapper fields) -/
-  | setSelf (n : Nat) (e : Expr)
+  | setSelf (attrs : List Attr) (e : Expr)
+  /-- `raise TraitNotificationError(…)` -/
+  | raiseNotification
   deriving Repr
 
 structure Func where
@@ -138,12 +156,16 @@ structure WC where
   xform : List Sel := [.obj, .name, .old, .new]
   /-- does the weak reference to the owner of a method wrapper still refer to something? -/
   ownerAlive : Bool := true
+  /-- `co_argcount` of the function underlying the handler given to `init` (`self` included for a method) -/
+  candArgc : Nat := 4
 
 structure MS where
   vars : Nat → Val
   s : OSt
   /-- the exception being handled (inside an `except` block) -/
   cur : Option Exc := none
+  /-- the wrapper attributes assigned so far (`self.a = …`), oldest first -/
+  attrs : List (Attr × Val) := []
 
 inductive Flow where
   | next
@@ -187,6 +209,8 @@ def getAttr (C : WC) : Val → Attr → Val
   | .event, .object => .object
   | .event, .name => .name
   | .self, .handler => .handler
+  | .self, .listener_deleted => .callback
+  | .cand, .dunder_func => (match C.cand with | .method _ _ => .funcOf | _ => .stuck)
   | .self, .object => .weak
   | .self, .name => (match C.wrapName with | some k => .nameV k | none => .none)
   | .cand, .dunder_self => (match C.cand with | .method (some o) _ => .id o | .method none _ => .none | _ => .stuck)
@@ -238,6 +262,10 @@ def callFn (C : WC) : Fn → List Val → MS → R
   | .type_of, [.self], ms => (.ok (.ty false), ms)
   | .owner_deref, [.self], ms => (.ok (match C.wrapOwner with | some o => .id o | none => .none), ms)
   | .weak_deref, [.weak], ms => (.ok (if C.ownerAlive then .object else .none), ms)
+  | .argcount, [.funcOf], ms => (.ok (.int C.candArgc), ms)
+  | .argcount, [.cand], ms => (.ok (.int C.candArgc), ms)
+  | .weakref_new, [.id _, .callback], ms => (.ok .weak, ms)
+  | .weakref_new, [.target, .callback], ms => (.ok .weak, ms)
   | .owner_remove, [.self], ms => (.ok .none, { ms with s := ms.s.removeSelf C.n C.loc })
   | .weak_deref, [.handler], ms => (.ok .handler, ms)
   | .weak_deref, [.self], ms => (.ok .object, ms)
@@ -306,6 +334,30 @@ def eval (C : WC) : Expr → MS → R
     (match eval C a ms with
      | (.ok v, ms1) => (.ok (if v = .stuck then .stuck else .bool (!truthy v)), ms1)
      | r => r)
+  | .sub a b, ms =>
+    (match eval C a ms with
+     | (.ok (.int x), ms1) =>
+       (match eval C b ms1 with
+        | (.ok (.int y), ms2) => (.ok (.int (x - y)), ms2)
+        | (.ok _, ms2) => (.ok .stuck, ms2)
+        | r => r)
+     | (.ok _, ms1) => (.ok .stuck, ms1)
+     | r => r)
+  | .gt a b, ms =>
+    (match eval C a ms with
+     | (.ok (.int x), ms1) =>
+       (match eval C b ms1 with
+        | (.ok (.int y), ms2) => (.ok (.bool (decide (x > y))), ms2)
+        | (.ok _, ms2) => (.ok .stuck, ms2)
+        | r => r)
+     | (.ok _, ms1) => (.ok .stuck, ms1)
+     | r => r)
+  | .listenerRef b, ms => (.ok (.listenerRef b), ms)
+  | .xformAt e, ms =>
+    (match eval C e ms with
+     | (.ok (.int n), ms1) => (.ok (if 0 ≤ n ∧ n ≤ 4 then .xformV n else .stuck), ms1)
+     | (.ok _, ms1) => (.ok .stuck, ms1)
+     | r => r)
   | .call f args, ms =>
     (match evalArgs C args ms with
      | (.ok vs, ms1) => callFn C f vs ms1
@@ -343,10 +395,12 @@ def exec (C : WC) : Stmt → MS → MS × Flow
     (match eval C e ms with
      | (.ok v, ms1) => (ms1, .returned v)
      | (.error x, ms1) => (ms1, .raised x))
-  | .setSelf _ e, ms =>
+  | .setSelf as e, ms =>
     (match eval C e ms with
-     | (.ok v, ms1) => if v = .stuck then (ms1, .returned .stuck) else (ms1, .next)
+     | (.ok v, ms1) =>
+       if v = .stuck then (ms1, .returned .stuck) else ({ ms1 with attrs := ms1.attrs ++ as.map (·, v) }, .next)
      | (.error x, ms1) => (ms1, .raised x))
+  | .raiseNotification, ms => (ms, .raised .other)
   | .tryS b v h o, ms =>
     (match exec C b ms with
      | (ms1, .raised x) =>
@@ -364,6 +418,14 @@ def run (C : WC) (f : Func) (args : List Val) (s : OSt) : Except Exc Val × OSt 
   | (ms, .returned v) => (.ok v, ms.s)
   | (ms, .next) => (.ok .none, ms.s)
   | (ms, .raised e) => (.error e, ms.s)
+
+/-- `init`: what it returns / raises and the wrapper attributes it assigned. -/
+def runInit (C : WC) (f : Func) (args : List Val) (s : OSt) : Except Exc Val × List (Attr × Val) :=
+  if args.length ≠ f.nparams then (.ok .stuck, []) else
+  match exec C f.body { vars := bindArgs 0 args, s := s } with
+  | (ms, .returned v) => (.ok v, ms.attrs)
+  | (ms, .next) => (.ok .none, ms.attrs)
+  | (ms, .raised e) => (.error e, ms.attrs)
 
 /-- How the model reports a wrapper call: a raw exception reaching `call_notifiers`, or none. -/
 def ofWrapper : Option Exc × OSt → Except Exc Val × OSt
